@@ -25,7 +25,11 @@ class Adapter:
                 res['div'].append({'kind': 'divergence', 'action': 'LanguageGraph', 'component': comp, 'features': [],
                                    'detail': detail, 'case': {'name': case['name'], 'lang': L},
                                    'adapter': 'harness.replay_langgraph'})
-        lg = LanguageGraph(materialise.spec_of(L))
+        try:
+            lg = LanguageGraph(materialise.spec_of(L))
+        except Exception as e:
+            div('language_graph_raises', {'error': repr(e)[:400]})      # a well-formed library language must load
+            return res
         names = [a.name for a in lg.assets]
         if sorted(names) != sorted(a['name'] for a in exp['assets']):
             div('assets', {'got': sorted(names)})
